@@ -123,6 +123,13 @@ def run_case(case, ctx):
     kw = {}
     if method == "or" and case["thetas"] is not None:
         kw = {"lowest_theta": case["thetas"][0], "highest_theta": case["thetas"][1]}
+    # dtype of the caller's sample: counts / binned data stored as integers, single precision
+    sdt = ["float64", "float64", "int64", "float64", "float32", "int32", "float64"][(int(case["sub"]) // 3) % 7]
+    ctx.cls("sample-dtype", sdt)
+    if sdt.startswith("int"):
+        sample = np.round(sample * (10.0 if np.ptp(sample[:, 0]) < 50 else 1.0)).astype(sdt)
+    elif sdt == "float32":
+        sample = sample.astype(np.float32)
     # memory layout of the caller's sample: row-major, column-major, transposed view
     layout = ["C", "F", "transposed", "C"][(int(case["sub"]) // 7) % 4]
     ctx.cls("sample-layout", layout)
